@@ -60,6 +60,13 @@ def problems():
     v = VectorVariable("v", 3, lb=-1.0, ub=2.0)
     out.append(("nlp-lbfgsb", lambda: Problem().minimize(((v - 0.3) ** 2).sum() + v.dot(v)), "L-BFGS-B"))
     out.append(("nlp-auto", lambda: Problem().maximize(-(x - 2) ** 2 - y ** 2).subject_to(x * x + y <= 3), "auto"))
+    # what "auto" resolves to on a box-only and on a linearly constrained smooth model; derivative-free and bound-blind methods
+    out.append(("nlp-auto-box", lambda: Problem().minimize(((v - 0.3) ** 2).sum() + v.dot(v)), "auto"))
+    out.append(("nlp-auto-lincon", lambda: Problem().minimize((x - 1) ** 2 + (y - 0.5) ** 2).subject_to(x + y >= 1), "auto"))
+    out.append(("nlp-nelder-mead", lambda: Problem().minimize((x - 1) ** 2 + (y - 0.5) ** 2 + F.exp(x * 0.1)), "Nelder-Mead"))
+    out.append(("nlp-powell", lambda: Problem().minimize(((v - 0.3) ** 2).sum()), "Powell"))
+    out.append(("nlp-cobyla", lambda: Problem().minimize((x - 1) ** 2 + (y - 0.5) ** 2).subject_to(x + y >= 1), "COBYLA"))
+    out.append(("nlp-bfgs", lambda: Problem().minimize((x - 1) ** 2 + (y - 0.5) ** 2 + x * y * 0.1), "BFGS"))
     return out
 
 
@@ -129,6 +136,8 @@ def run_with_fault(make, method, inj: Injector, compile_fault=None, hess_fault=N
                 ncompile[0] += 1
                 raise exc("injected fault in compile")
             ncompile[0] += 1
+        else:
+            ncompile[0] += 1
         # every compiled callable is counted wherever it is called from - inside the solver or in the wrapper's own
         # post-solve scan - so a fault can strike at ANY evaluation of the model
         return inj.wrap("compiled", real_compile(e, V))
@@ -159,7 +168,7 @@ def run_with_fault(make, method, inj: Injector, compile_fault=None, hess_fault=N
     obs = {"outcome": out, "raised_inside": inj.raised_inside, "hook_restored": hook_after is hook_before, "recursion_limit_restored": sys.getrecursionlimit() == rl0,
            "flags_before": flags0,
            "flags_after": (P._variables is not None, P._solver_cache is not None, bool(P._solver_cache and "hess_fn" in P._solver_cache)),
-           "counts": dict(inj.counts)}
+           "counts": dict(inj.counts), "n_compiles": ncompile[0]}
     with warnings.catch_warnings():
         warnings.simplefilter("ignore")
         try:
@@ -192,7 +201,7 @@ def run(rep: vk.Report):
                 idxs = sorted(set([0, n - 1] + rng.sample(idxs, 2)))
             for k in idxs:
                 plan.append(("callback", kind, k))
-        for k in range(4):                       # compiles during the cache build (objective, gradient entries, constraints)
+        for k in range(min(4, base.get("n_compiles", 4))):   # compiles during the cache build (objective, gradient entries, constraints): only those that happen
             plan.append(("compile", None, k))
         if hess_needed:
             plan.append(("hess", None, 0))
@@ -278,7 +287,10 @@ def run(rep: vk.Report):
     fails = cases.run(shard=300)
     for i in fails:
         m = cases.meta[i]
-        concrete = not m["hook_restored"]
+        # the property's own clause, independent of the model: an evaluation RAISED during this call, and the call nevertheless
+        # returned a solution that is not FAILED (the fault was swallowed), or the hook was not restored
+        swallowed = m["outcome"][0] == "returned" and m["outcome"][1] != "failed"
+        concrete = (not m["hook_restored"]) or swallowed
         rep.violation({"kind": "correspondence", "obligation": "outcome / hook / cache flags after the fault = model (Fault.v)", "meta": m,
                        "case": cases.terms[i][:1500], "model": cases.model_answer(i, lambda t: "match " + t + " with (w0, nh, ph, e, _, _) => solve_scipy w0 nh (Some (ph, e)) end"),
                        "witness": m if concrete else None}, concrete=concrete)
